@@ -344,10 +344,10 @@ func cmdCheck(args []string) {
 
 	// wall budget of the whole check: cases not started before it expires are reported as NOT EXPLORED
 	// (reduced coverage, stated in the output and in the evidence), cases running at that time get a
-	// short grace period. VERIF_WALL_S overrides the default (quick 1500 s, thorough 1800 s).
+	// short grace period. VERIF_WALL_S overrides the default (quick 1500 s, thorough 900 s).
 	wallS := 1500
 	if *tier == "thorough" {
-		wallS = 1800
+		wallS = 900
 	}
 	if v, err := strconv.Atoi(os.Getenv("VERIF_WALL_S")); err == nil && v > 0 {
 		wallS = v
